@@ -235,7 +235,11 @@ class Program:
                 f = self.lookup_method(m.classes[parts[0]], parts[1])
         if f is None:
             parts = dotted.split(".")
-            outer = self.functions.get("%s.%s" % (m.name, ".".join(parts[:-1]))) if len(parts) > 1 else None
+            outer = None
+            for k_ in range(len(parts) - 1, 0, -1):        # any enclosing level that is still a function of the module
+                outer = self.functions.get("%s.%s" % (m.name, ".".join(parts[:k_])))
+                if outer is not None:
+                    break
             if outer is not None:
                 # a closure: it may have moved, with the code around it, into a helper of the same module
                 cands = [g for q2, g in self.functions.items() if g.module is m and g.parent is not None and q2.endswith("." + parts[-1])]
